@@ -21,6 +21,9 @@ Record Inv (st : state) : Prop := mkInv {
      subscription refers to a live fabric of its own incarnation *)
   inv_sess : forall s, In s (st_sess st) -> s_exp s = false -> s_fab s <> 0 ->
              fab_live (st_fabs st) (s_fab s) (s_inc s);
+  (* a slot reserved by a handshake in its last step sits on a live fabric of its incarnation *)
+  inv_res : forall s, In s (st_sess st) -> s_res s = true ->
+            fab_live (st_fabs st) (s_fab s) (s_inc s);
   inv_recs : forall r, In r (st_recs st) -> fab_live (st_fabs st) (r_fab r) (r_inc r);
   inv_kvrecs : forall r, In r (st_kvrecs st) -> fab_live (st_fabs st) (r_fab r) (r_inc r);
   inv_subs : forall u, In u (st_subs st) -> fab_live (st_fabs st) (u_fab u) (u_inc u);
@@ -79,13 +82,21 @@ Definition TInv (l : list fabric) (n : N) : Prop :=
 Definition SInv (fabs : list fabric) (n : N) (l : list session) : Prop :=
   (forall s, In s l -> s_exp s = false -> s_fab s <> 0 -> fab_live fabs (s_fab s) (s_inc s)) /\
   NoDup (map s_id l) /\
-  (forall s, In s l -> s_id s < n).
+  (forall s, In s l -> s_id s < n) /\
+  (forall s, In s l -> s_res s = true -> fab_live fabs (s_fab s) (s_inc s)).
+
+(** the session a removal keeps (marked expired) is not a reserved slot *)
+Definition keep_unres (keep : option N) (l : list session) : Prop :=
+  forall y, In y l -> opt_is keep (s_id y) = true -> s_res y = false.
 
 Lemma Inv_TInv : forall st, Inv st -> TInv (st_fabs st) (st_ninc st).
 Proof. intros st H. split; [|split]; [apply (inv_fresh _ H)|apply (inv_inj _ H)|apply (inv_idx _ H)]. Qed.
 
 Lemma Inv_SInv : forall st, Inv st -> SInv (st_fabs st) (st_nsid st) (st_sess st).
-Proof. intros st H. split; [|split]; [apply (inv_sess _ H)|apply (inv_sid _ H)|apply (inv_sid_lt _ H)]. Qed.
+Proof.
+  intros st H. split; [|split; [|split]];
+    [apply (inv_sess _ H)|apply (inv_sid _ H)|apply (inv_sid_lt _ H)|apply (inv_res _ H)].
+Qed.
 
 Lemma Inv_build : forall st,
   TInv (st_fabs st) (st_ninc st) ->
@@ -96,7 +107,7 @@ Lemma Inv_build : forall st,
   (forall u, In u (st_subs st) -> fab_live (st_fabs st) (u_fab u) (u_inc u)) ->
   Inv st.
 Proof.
-  intros st (T1 & T2 & T3) Hkv (S1 & S2 & S3) Hr Hk Hu. constructor; assumption.
+  intros st (T1 & T2 & T3) Hkv (S1 & S2 & S3 & S4) Hr Hk Hu. constructor; assumption.
 Qed.
 
 Lemma TInv_fdel : forall l n j, TInv l n -> TInv (fdel j l) n.
@@ -165,40 +176,63 @@ Proof.
 Qed.
 
 (** ** Session tables *)
+Lemma keep_unres_none : forall l, keep_unres None l.
+Proof. intros l y _ H. discriminate H. Qed.
+
+Lemma keep_unres_ctx : forall l s,
+  NoDup (map s_id l) -> In s l -> usable s = true -> keep_unres (Some (s_id s)) l.
+Proof.
+  intros l s Hd Hs Hu y Hy Ho. cbn [opt_is] in Ho. apply N.eqb_eq in Ho.
+  assert (s = y) by (apply (NoDup_map_In_inj s_id l); auto). subst y.
+  unfold usable in Hu. apply andb_true_iff in Hu. destruct Hu as [_ Hu]. apply negb_true_iff in Hu. exact Hu.
+Qed.
+
+Lemma keep_unres_remove_pase : forall keep k l, keep_unres k l -> keep_unres k (remove_pase keep l).
+Proof.
+  intros keep k l H x Hx Ho. apply In_remove_pase in Hx. destruct Hx as (y & Hy & [->| ->]); [auto|].
+  cbn [s_res set_exp]. rewrite set_exp_id in Ho. auto.
+Qed.
+
 Lemma SInv_mono : forall l l' n n' ss,
   (forall i c, fab_live l i c -> fab_live l' i c) -> n <= n' -> SInv l n ss -> SInv l' n' ss.
 Proof.
-  intros l l' n n' ss Hm Hn (S1 & S2 & S3). split; [|split]; auto.
+  intros l l' n n' ss Hm Hn (S1 & S2 & S3 & S4). split; [|split; [|split]]; auto.
   intros s Hs. specialize (S3 s Hs). lia.
 Qed.
 
 Lemma SInv_remove_pase : forall l n keep ss, SInv l n ss -> SInv l n (remove_pase keep ss).
 Proof.
-  intros l n keep ss (S1 & S2 & S3). split; [|split].
+  intros l n keep ss (S1 & S2 & S3 & S4). split; [|split; [|split]].
   - intros x Hx He Hf. apply In_remove_pase in Hx. destruct Hx as (y & Hy & [->| ->]); [auto|].
     discriminate He.
   - apply ids_remove_pase. exact S2.
   - intros x Hx. apply In_remove_pase in Hx. destruct Hx as (y & Hy & [->| ->]); [auto|].
     rewrite set_exp_id. auto.
+  - intros x Hx Hr. apply In_remove_pase in Hx. destruct Hx as (y & Hy & [->| ->]); [auto|].
+    cbn [set_exp s_res s_fab s_inc] in *. auto.
 Qed.
 
 Lemma SInv_rff : forall l n i keep ss,
-  SInv l n ss -> SInv (fdel i l) n (remove_for_fabric i keep ss).
+  keep_unres keep ss -> SInv l n ss -> SInv (fdel i l) n (remove_for_fabric i keep ss).
 Proof.
-  intros l n i keep ss (S1 & S2 & S3). split; [|split].
+  intros l n i keep ss Hk (S1 & S2 & S3 & S4). split; [|split; [|split]].
   - intros x Hx He Hf. apply In_remove_for_fabric in Hx.
     destruct Hx as (y & Hy & [[-> Hne]| ->]); [|discriminate He].
     apply live_fdel; auto.
   - apply ids_remove_for_fabric. exact S2.
   - intros x Hx. apply In_remove_for_fabric in Hx.
     destruct Hx as (y & Hy & [[-> Hne]| ->]); [auto|]. rewrite set_exp_id. auto.
+  - intros x Hx Hr. apply In_remove_for_fabric_keep in Hx.
+    destruct Hx as (y & Hy & [[-> Hne]|[-> Ho]]).
+    + apply live_fdel; auto.
+    + cbn [set_exp s_res] in Hr. rewrite (Hk y Hy Ho) in Hr. discriminate Hr.
 Qed.
 
-Lemma SInv_append : forall l n ss m fab node inc,
-  SInv l n ss -> (fab <> 0 -> fab_live l fab inc) ->
-  SInv l (n + 1) (ss ++ [mkSess n m fab node false false inc]).
+Lemma SInv_append : forall l n ss m fab node res inc,
+  SInv l n ss -> (fab <> 0 \/ res = true -> fab_live l fab inc) ->
+  SInv l (n + 1) (ss ++ [mkSess n m fab node false res inc]).
 Proof.
-  intros l n ss m fab node inc (S1 & S2 & S3) Hl. split; [|split].
+  intros l n ss m fab node res inc (S1 & S2 & S3 & S4) Hl. split; [|split; [|split]].
   - intros x Hx He Hf. apply in_app_iff in Hx. destruct Hx as [Hx|[<-|[]]]; [auto|].
     cbn [s_fab s_inc] in *. auto.
   - rewrite map_app. cbn [map s_id]. apply NoDup_app_one.
@@ -207,17 +241,33 @@ Proof.
   - intros x Hx. apply in_app_iff in Hx. destruct Hx as [Hx|[<-|[]]].
     + specialize (S3 x Hx). lia.
     + cbn [s_id]. lia.
+  - intros x Hx Hr. apply in_app_iff in Hx. destruct Hx as [Hx|[<-|[]]]; [auto|].
+    cbn [s_fab s_inc s_res] in *. auto.
 Qed.
 
 Lemma SInv_upgrade : forall l n ss sid idx inc,
   SInv l n ss -> fab_live l idx inc -> SInv l n (upgrade sid idx inc ss).
 Proof.
-  intros l n ss sid idx inc (S1 & S2 & S3) Hl. split; [|split].
+  intros l n ss sid idx inc (S1 & S2 & S3 & S4) Hl. split; [|split; [|split]].
   - intros x Hx He Hf. apply In_upgrade in Hx. destruct Hx as (y & Hy & [->| ->]); [auto|].
     cbn [s_fab s_inc]. exact Hl.
   - rewrite ids_upgrade. exact S2.
   - intros x Hx. apply In_upgrade in Hx. destruct Hx as (y & Hy & [->| ->]); [auto|].
     cbn [s_id]. auto.
+  - intros x Hx Hr. apply In_upgrade in Hx. destruct Hx as (y & Hy & [->| ->]); [auto|].
+    cbn [s_fab s_inc]. exact Hl.
+Qed.
+
+Lemma SInv_release : forall l n ss sid, SInv l n ss -> SInv l n (release sid ss).
+Proof.
+  intros l n ss sid (S1 & S2 & S3 & S4). split; [|split; [|split]].
+  - intros x Hx He Hf. apply In_release in Hx. destruct Hx as (y & Hy & [->| ->]); [auto|].
+    cbn [s_fab s_inc s_exp] in *. auto.
+  - rewrite ids_release. exact S2.
+  - intros x Hx. apply In_release in Hx. destruct Hx as (y & Hy & [->| ->]); [auto|].
+    cbn [s_id]. auto.
+  - intros x Hx Hr. apply In_release in Hx. destruct Hx as (y & Hy & [->| ->]); [auto|].
+    discriminate Hr.
 Qed.
 
 (** ** Operations that leave the tables alone *)
@@ -279,9 +329,10 @@ Proof.
 Qed.
 
 (** ** [expire] *)
-Lemma expire_inv : forall st keep, Inv st -> Inv (expire repaired st keep).
+Lemma expire_inv : forall st keep,
+  Inv st -> keep_unres keep (st_sess st) -> Inv (expire repaired st keep).
 Proof.
-  intros st keep H. unfold expire.
+  intros st keep H Hkeep. unfold expire.
   destruct (st_fs st) as [|f fl]; [exact H|].
   destruct (f =? 0) eqn:E0.
   { apply Inv_build; sp.
@@ -311,7 +362,9 @@ Proof.
     + apply TInv_fdel. apply Inv_TInv; exact H.
     + intros x Hx. apply live_fdel; [apply (inv_kv _ H); exact Hx|].
       exact (fget_none _ _ K x Hx).
-    + apply SInv_rff. apply SInv_remove_pase. apply Inv_SInv; exact H.
+    + apply SInv_rff; [|apply SInv_remove_pase; apply Inv_SInv; exact H].
+      intros y Hy Ho. apply opt_is_keep_if_on in Ho.
+      exact (keep_unres_remove_pase keep keep _ Hkeep y Hy Ho).
     + intros x Hx Hne. apply live_fdel; [apply (inv_recs _ H); exact Hx|exact Hne].
     + intros x Hx Hne. apply live_fdel; [apply (inv_subs _ H); exact Hx|exact Hne].
 Qed.
@@ -360,7 +413,30 @@ Proof.
   intros st m fab node inc H Hl. apply Inv_build; sp.
   - apply Inv_TInv; exact H.
   - apply (inv_kv _ H).
-  - apply SInv_append; [apply Inv_SInv; exact H|exact Hl].
+  - apply SInv_append; [apply Inv_SInv; exact H|]. intros [Hf|Hf]; [auto|discriminate Hf].
+  - apply (inv_recs _ H).
+  - apply (inv_kvrecs _ H).
+  - apply (inv_subs _ H).
+Qed.
+
+Lemma new_reserved_inv : forall st fab node inc,
+  Inv st -> fab_live (st_fabs st) fab inc -> Inv (new_reserved st fab node inc).
+Proof.
+  intros st fab node inc H Hl. unfold new_reserved. apply Inv_build; sp.
+  - apply Inv_TInv; exact H.
+  - apply (inv_kv _ H).
+  - apply SInv_append; [apply Inv_SInv; exact H|]. intros _. exact Hl.
+  - apply (inv_recs _ H).
+  - apply (inv_kvrecs _ H).
+  - apply (inv_subs _ H).
+Qed.
+
+Lemma release_inv : forall st sid, Inv st -> Inv (set_sess st (release sid (st_sess st))).
+Proof.
+  intros st sid H. apply Inv_build; sp.
+  - apply Inv_TInv; exact H.
+  - apply (inv_kv _ H).
+  - apply SInv_release. apply Inv_SInv; exact H.
   - apply (inv_recs _ H).
   - apply (inv_kvrecs _ H).
   - apply (inv_subs _ H).
@@ -393,7 +469,7 @@ Proof.
   cbn [fx_startup_recs fx_startup_subs repaired]. apply Inv_build; sp.
   - exact HT.
   - apply HT.
-  - split; [|split]; [intros s []|constructor|intros s []].
+  - split; [|split; [|split]]; [intros s []|constructor|intros s []|intros s []].
   - intros r Hr. apply filter_In in Hr. destruct Hr as [Hr Hf]. apply has_fab_true in Hf.
     destruct Hf as (kf & K). exists kf. split; [exact K|].
     eapply kv_live; eauto. apply (inv_kvrecs _ H); exact Hr.
@@ -415,7 +491,7 @@ Ltac inv_fields H :=
 Theorem invariant_step : forall st o, Inv st -> Inv (fst (step st o)).
 Proof.
   intros st o H. unfold step.
-  destruct o as [sid|sid r|sid|sid|sid i| |sid|sid|r|i node|i|k| | | |sid k|sid| ]; cbn [step_fx]; cbv zeta.
+  destruct o as [sid|sid r|sid|sid|sid i| |sid|sid|r|i node|i|k| | | |sid k|sid| |r|k|sid|sid]; cbn [step_fx]; cbv zeta.
   - (* OArm *)
     destruct (sess_ctx st sid) as [s|] eqn:C; [|exact H].
     destruct (negb (allowed st s)); [exact H|].
@@ -451,20 +527,27 @@ Proof.
     + apply TInv_fdel. inv_fields H.
     + intros x Hx. apply In_fdel in Hx. destruct Hx as [Hx Hne].
       apply live_fdel; [apply (inv_kv _ H); exact Hx|exact Hne].
-    + apply SInv_rff. inv_fields H.
+    + destruct (sess_ctx_some _ _ _ C) as (_ & Hu & Hin & _ & _).
+      apply SInv_rff; [|inv_fields H].
+      destruct (s_fab s =? i); [|apply keep_unres_none].
+      apply keep_unres_ctx; [apply (inv_sid _ H)|exact Hin|exact Hu].
     + intros x Hx Hne. apply In_recs_drop in Hx. destruct Hx as [Hx _].
       apply live_fdel; [apply (inv_recs _ H); exact Hx|exact Hne].
     + intros x Hx Hne. apply live_fdel; [apply (inv_subs _ H); exact Hx|exact Hne].
   - (* OTimeout *)
-    cbn [fst]. apply expire_inv; exact H.
+    cbn [fst]. apply expire_inv; [exact H|apply keep_unres_none].
   - (* OArm0 *)
     destruct (sess_ctx st sid) as [s|] eqn:C; [|exact H].
     destruct (negb (allowed st s)); [exact H|].
-    cbn [fst]. apply expire_inv; exact H.
+    destruct (sess_ctx_some _ _ _ C) as (_ & Hu & Hin & _ & _).
+    cbn [fst]. apply expire_inv; [exact H|].
+    apply keep_unres_ctx; [apply (inv_sid _ H)|exact Hin|exact Hu].
   - (* ORevoke *)
     destruct (sess_ctx st sid) as [s|] eqn:C; [|exact H].
     destruct (negb (allowed st s)); [exact H|].
-    cbn [fst]. apply expire_inv; exact H.
+    destruct (sess_ctx_some _ _ _ C) as (_ & Hu & Hin & _ & _).
+    cbn [fst]. apply expire_inv; [exact H|].
+    apply keep_unres_ctx; [apply (inv_sid _ H)|exact Hin|exact Hu].
   - (* OEstablish *)
     destruct (find (fun f => f_root f =? r) (st_fabs st)) as [f|] eqn:F; [|exact H].
     apply establish_inv; [exact H|]. apply find_some in F. apply (inv_idx _ H). tauto.
@@ -523,6 +606,26 @@ Proof.
   - (* ONewPase *)
     destruct (table_full st); [exact H|]. cbn [fst]. apply new_session_inv; [exact H|].
     intro Hc. exfalso; apply Hc; reflexivity.
+  - (* OEstablishBegin *)
+    destruct (find (fun f => f_root f =? r) (st_fabs st)) as [f|] eqn:F; [|exact H].
+    destruct (table_full st); [exact H|]. cbn [fst].
+    assert (Hl : fab_live (st_fabs st) (f_idx f) (f_inc f)).
+    { apply find_some in F. apply (inv_idx _ H). tauto. }
+    apply new_record_inv; [apply new_reserved_inv; auto|exact Hl].
+  - (* OResumeBegin *)
+    destruct (rget k (st_recs st)) as [r|] eqn:R; [|exact H].
+    destruct (fget (r_fab r) (st_fabs st)) as [f|] eqn:G; [|exact H].
+    destruct (table_full st); [exact H|]. cbn [fst].
+    destruct (rget_In _ _ _ R) as [Hr _]. apply new_reserved_inv; [exact H|].
+    apply (inv_recs _ H); exact Hr.
+  - (* OFinishFull *)
+    destruct (sget sid (st_sess st)) as [s|] eqn:G; [|exact H].
+    destruct (s_res s); [|exact H]. cbn [fst]. apply release_inv; exact H.
+  - (* OFinishResume *)
+    destruct (sget sid (st_sess st)) as [s|] eqn:G; [|exact H].
+    destruct (s_res s) eqn:Er; [|exact H]. cbn [fst].
+    destruct (sget_In _ _ _ G) as [Hin _].
+    apply new_record_inv; [apply release_inv; exact H|]. sp. apply (inv_res _ H); assumption.
 Qed.
 
 Theorem invariant_exec : forall st ops, Inv st -> Inv (exec st ops).
@@ -563,6 +666,7 @@ Proof.
      | intros f Hf; in_cases; (eexists; split; [reflexivity|reflexivity])
      | intros s Hs He Hn; in_cases; cbn [s_fab s_inc] in *;
        try (exfalso; apply Hn; reflexivity); (eexists; split; [reflexivity|reflexivity])
+     | intros s Hs Hr; in_cases; try discriminate Hr
      | intros r []
      | intros r []
      | intros u []
